@@ -187,7 +187,7 @@ func Run(tier string, seed int64, outDir string) *common.Meta {
 
 	kinds := []string{"valid", "valid", "valid", "unreadable", "syntax", "dsl", "empty", "badimport"}
 	failOns := []string{"", "dsl", "import", "all", "dsl,import", "import,dsl,", "bogus", "dsl,bogus", ",", "all,import"}
-	enables := []string{"<all>", "gA", "#style", "#experimental", "#experimental,gC", " gA , #test", "nosuch", "#style,#experimental", ""}
+	enables := []string{"<all>", "gA", "#style", "#experimental", "#experimental,gC", " gA , #test", "nosuch", "#style,#experimental", "", "gB", "gF,gE", "#style,gB", "#test,#diagnostic"}
 	disables := []string{"", "gA", "#style", "#test, gC", "#experimental", "gB,gH"}
 	n := 220
 	if tier == "thorough" {
@@ -215,11 +215,13 @@ func Run(tier string, seed int64, outDir string) *common.Meta {
 		}
 		c.disable = disables[rng.Intn(len(disables))]
 		next := 0
+		// the pool is visited in a per-case random order so that every tag combination meets every filter
+		perm := rng.Perm(len(pool))
 		takeGroups := func() []group {
-			k := 1 + rng.Intn(2)
+			k := 1 + rng.Intn(3)
 			var gs []group
 			for i := 0; i < k && next < len(pool); i++ {
-				gs = append(gs, pool[next])
+				gs = append(gs, pool[perm[next]])
 				next++
 			}
 			return gs
